@@ -125,6 +125,13 @@ CHECKS["C19"] = dict(
   note="Trusts the Go race detector. Queries never name unwritten rpc input/output nor unresolvable prefixes (those lookups write by design).",
   design="DESIGN.md section 4, C19")
 
+CHECKS["C05"] = dict(
+  category="exploration",
+  technique="metamorphic testing: rapid-generated module sets with ties, conflicts and planted faults are run repeatedly and in permuted load orders in fresh module sets (and through the goyang command), all results must be identical; invariant check on every returned error list",
+  text="Module sets biased toward ties and conflicts (equal identity names under one base, several deviate statements, two deviating modules, chained augments, 1-3 planted faults spread over files) are loaded in every permutation (<= 3 sources) or model order plus 7 random orders, 4 times each in fresh module sets inside one process; load errors, the Process() error strings in order and the complete canonical dump must be identical in all runs, error lists ordered by file/line/column without duplicates. A twelfth of the cases also run the goyang binary built from the working tree 6 times per format (tree, types) with two argument orders and compare exit status, stdout and stderr byte for byte.",
+  note="No reference model: the oracle is equality between runs of the code under test. Order dependence is observed only if the Go runtime iterates a map differently in one of the 24-32 runs of a case (about 1/8 per range for a two-entry map with Go 1.23), so a single tie can stay unseen in one case with probability of a few percent; features recur over hundreds of cases.",
+  design="DESIGN.md section 4, C05")
+
 PENDING = {}
 
 def main():
